@@ -81,3 +81,32 @@ Section Bounds.
     destruct (Z.ltb_spec 0 msize); destruct (Z.ltb_spec (f_mlen fr) msize); cbn [andb]; lia.
   Qed.
 End Bounds.
+
+(* an access the extractor found, justified by the declared regions, stays inside the resized memory:
+   either it is a declared region, or it is a literal window behind a guard on the region's length *)
+Definition access_len (s : list Z) (a : access) : Z :=
+  match snd a with LArg j => sget s j | LConst n => n end.
+
+Lemma acc_justified_sound guards regs s mlen i c sz :
+  acc_justified guards regs (i, c, sz) = true ->
+  nonneg_stack s ->
+  (forall r, In r regs -> region_len s r = 0 \/ sget s (fst r) + region_len s r <= mlen) ->
+  (forall g, In g guards -> snd g <= sget s (fst g)) ->        (* the guards did not return on this path *)
+  access_len s (i, c, sz) = 0 \/ sget s i + c + access_len s (i, c, sz) <= mlen.
+Proof.
+  unfold acc_justified. intros H Hs Hreg Hg. apply orb_prop in H. destruct H as [H|H].
+  - apply andb_prop in H. destruct H as [Hc Hin]. apply Z.eqb_eq in Hc. subst c.
+    apply region_in_In in Hin. destruct (Hreg _ Hin) as [Hz|Hle].
+    + left. exact Hz.
+    + right. unfold access_len, region_len in *. cbn [fst snd] in *. lia.
+  - destruct sz as [j|n]; [discriminate|].
+    apply andb_prop in H. destruct H as [H Hex]. apply andb_prop in H. destruct H as [Hc Hn].
+    apply Z.leb_le in Hc. apply Z.ltb_lt in Hn.
+    apply existsb_exists in Hex. destruct Hex as [[i' [j|m]] [Hin Hr]]; [|discriminate].
+    apply andb_prop in Hr. destruct Hr as [Hi Hgd]. apply Nat.eqb_eq in Hi. subst i'.
+    apply existsb_exists in Hgd. destruct Hgd as [[gj K] [HinG HK]]. cbn [fst snd] in HK.
+    apply andb_prop in HK. destruct HK as [Hj HKle]. apply Nat.eqb_eq in Hj. subst gj. apply Z.leb_le in HKle.
+    specialize (Hg _ HinG). cbn [fst snd] in Hg.
+    right. unfold access_len. cbn [snd].
+    destruct (Hreg _ Hin) as [Hz|Hle]; unfold region_len in *; cbn [fst snd] in *; lia.
+Qed.
